@@ -166,11 +166,17 @@ def hasDup : List Nat → Bool
 
 /-- classification key of a new starvation (C18), from the operation that produced it -/
 def starveKey (pre : Sys) (op : Option Op) (vs : List Nat) : String :=
+  -- a system that holds a force_creation duplicate (a variable attached twice to one constraint) is in the class of the
+  -- registered finding whatever operation exposes the starvation (the theorem `staged_implies_some_full` excludes
+  -- exactly the histories with a forced expand): test this first, the repaired suspend path second
+  let dup := vs.any (fun v => hasDup (pre.vars v).cn) || (List.range pre.nv).any (fun v => hasDup (pre.vars v).cn)
   match op with
-  | some (.vpen v 0) => if 0 < (pre.vars v).pen then "suspend-no-reexamine" else "unclassified"
   | some (.expand _ _ _ true) => "force-creation-duplicate"
-  | _ => if vs.any (fun v => hasDup (pre.vars v).cn) || (List.range pre.nv).any (fun v => hasDup (pre.vars v).cn)
-         then "force-creation-duplicate" else "unclassified"
+  | _ =>
+    if dup then "force-creation-duplicate" else
+    match op with
+    | some (.vpen v 0) => if 0 < (pre.vars v).pen then "suspend-no-reexamine" else "unclassified"
+    | _ => "unclassified"
 
 /-- classification of a closure break of the model's modified set (C17) -/
 def staleMark (s : Sys) (v : Nat) : Bool :=
